@@ -4,8 +4,8 @@ importing (expect='violation'), plus benign twins that must stay silent (expect=
 VARIANTS = []
 
 
-def V(pid, name, expect, *edits, rule=None):
-    VARIANTS.append(dict(pid=pid, name=name, expect=expect, edits=list(edits), rule=rule))
+def V(pid, name, expect, *edits, rule=None, tier="quick"):
+    VARIANTS.append(dict(pid=pid, name=name, expect=expect, edits=list(edits), rule=rule, tier=tier))
 
 
 LINE = "andes/models/line/line.py"
@@ -107,3 +107,44 @@ V("C06", "schedule_overwrite", "violation", (SYSTEM, "                self.switc
 V("C06", "schedule_drops_current", "violation", (SYSTEM, "ltzero_idx = np.where(out >= self.dae.t)[0]", "ltzero_idx = np.where(out > self.dae.t)[0]"), rule="C06.schedule")
 V("C06", "no_switch_clip", "violation", (TDS, "                self.h = system.switch_times[self._switch_idx] - system.dae.t\n", "                pass\n"), rule="C06.clip")
 V("C06", "benign_callback_guard_form", "silent", (TIMER, "            if (is_time[i] == 0) or (self.u.v[i] == 0):\n                continue\n\n            instance = self.system.__dict__[self.model.v[i]]", "            if not (is_time[i] and self.u.v[i] != 0):\n                continue\n\n            instance = self.system.__dict__[self.model.v[i]]"))
+
+# ---------------- C18
+BLOCK = "andes/core/block.py"
+V("C18", "pid_td_unused", "violation", (BLOCK, "        self.PIC = PIController(info=\"PIC\", tex_name=\"PIC\",\n                                u=self.uin, kp=self.kp, ki=self.ki, x0=x0)\n        self.WO = Washout(info='Washout', tex_name='WO',\n                          u=self.uin, K=self.kd, T=self.Td)", "        self.PIC = PIController(info=\"PIC\", tex_name=\"PIC\",\n                                u=self.uin, kp=self.kp, ki=self.ki, x0=x0)\n        self.WO = Washout(info='Washout', tex_name='WO',\n                          u=self.uin, K=self.kd, T=self.kd)"), rule="C18.tf")
+V("C18", "leadlag_init_no_gain", "violation", (BLOCK, "        self.y.v_str = f'{self.K.name} * {self.u.name}'\n\n        self.x.e_str = f'({self.u.name} - {self.name}_x)'\n        self.y.e_str = f'{self.K.name} * {self.T1.name}", "        self.y.v_str = f'{self.u.name}'\n\n        self.x.e_str = f'({self.u.name} - {self.name}_x)'\n        self.y.e_str = f'{self.K.name} * {self.T1.name}"), rule="C18.balance")
+V("C18", "lag_sign", "violation", (BLOCK, "        self.y.e_str = f'({self.K.name} * {self.u.name} - {self.D.name} * {self.name}_y)'", "        self.y.e_str = f'({self.K.name} * {self.u.name} + {self.D.name} * {self.name}_y)'"), rule="C18.tf")
+V("C18", "washout_gain_dropped", "violation", (BLOCK, "        self.y.e_str = f'{self.K.name} * ({self.u.name} - {self.name}_x) - {self.T.name} * {self.name}_y'", "        self.y.e_str = f'({self.u.name} - {self.name}_x) - {self.T.name} * {self.name}_y'"), rule="C18.tf")
+V("C18", "lag2nd_swapped_T", "violation", (BLOCK, "        self.x = State(info='State in 2nd order LPF', tex_name=\"x'\", t_const=self.T2)", "        self.x = State(info='State in 2nd order LPF', tex_name=\"x'\", t_const=self.T1)"), rule="C18.tf")
+V("C18", "lagaw_differs_from_lag", "violation", (BLOCK, "        self.lim = AntiWindup(u=self.y, lower=self.lower, upper=self.upper, tex_name='lim',\n                              info='Limiter in Lag')\n\n        self.vars = {'y': self.y, 'lim': self.lim}\n\n    def define(self):", "        self.lim = AntiWindup(u=self.y, lower=self.lower, upper=self.upper, tex_name='lim',\n                              info='Limiter in Lag')\n\n        self.vars = {'y': self.y, 'lim': self.lim}\n        self.D = dummify(2 * 1)\n\n    def define(self):"), rule="C18")
+V("C18", "hvgate_is_min", "violation", (BLOCK, "        self.y.v_str = f'{self.name}_lt_z0*{self.u1.name} + {self.name}_lt_z1*{self.u2.name}'\n        self.y.e_str = f'{self.name}_lt_z0*{self.u1.name} + {self.name}_lt_z1*{self.u2.name} - ' \\\n", "        self.y.v_str = f'{self.name}_lt_z0*{self.u1.name} + {self.name}_lt_z1*{self.u2.name}'\n        self.y.e_str = f'{self.name}_lt_z1*{self.u1.name} + {self.name}_lt_z0*{self.u2.name} - ' \\\n"), rule="C18.gate")
+V("C18", "pi_init_no_x0", "violation", (BLOCK, "        self.y.v_str = f'{self.kp.name} * ({self.u.name} - {self.ref.name}) + {self.x0.name}'\n        self.y.e_str = f'{self.kp.name} * ({self.u.name} - {self.ref.name}) + ' \\\n                       f'{self.name}_xi - {self.name}_y'", "        self.y.v_str = f'{self.kp.name} * ({self.u.name} - {self.ref.name}) + 1'\n        self.y.e_str = f'{self.kp.name} * ({self.u.name} - {self.ref.name}) + ' \\\n                       f'{self.name}_xi - {self.name}_y'"), rule="C18.balance")
+V("C18", "benign_lag_rewrite", "silent", (BLOCK, "        self.y.e_str = f'({self.K.name} * {self.u.name} - {self.D.name} * {self.name}_y)'", "        self.y.e_str = f'(-{self.D.name} * {self.name}_y + {self.u.name} * {self.K.name})'"))
+
+# ---------------- C09
+DISC = "andes/core/discrete.py"
+V("C09", "limiter_zl_strict", "violation", (DISC, "            if self.equal:\n                self.zl[:] = np.less_equal(self.u.v, lower_v)\n            else:\n                self.zl[:] = np.less(self.u.v, lower_v)", "            if self.equal:\n                self.zl[:] = np.less(self.u.v, lower_v)\n            else:\n                self.zl[:] = np.less(self.u.v, lower_v)"), rule="C09.limiter")
+V("C09", "limiter_zi_and", "violation", (DISC, "                self.zl[:] = np.less(self.u.v, lower_v)\n\n        self.zi[:] = np.logical_not(np.logical_or(self.zu, self.zl))", "                self.zl[:] = np.less(self.u.v, lower_v)\n\n        self.zi[:] = np.logical_not(np.logical_and(self.zu, self.zl))"), rule="C09.limiter")
+V("C09", "limiter_sign_ignored", "violation", (DISC, "            lower_v = -self.lower.v if self.sign_lower.v == -1 else self.lower.v\n\n            # FIXME: adjust will not be successful when sign is -1\n            if self.allow_adjust and is_init:\n                self.do_adjust_lower(self.u.v, lower_v, allow_adjust, adjust_lower)", "            lower_v = self.lower.v\n\n            # FIXME: adjust will not be successful when sign is -1\n            if self.allow_adjust and is_init:\n                self.do_adjust_lower(self.u.v, lower_v, allow_adjust, adjust_lower)"), rule="C09.limiter")
+V("C09", "aw_ignores_derivative", "violation", (DISC, "            self.zu[:] = np.logical_and(np.greater_equal(self.u.v, upper_v),\n                                        np.greater_equal(self.state.e, 0))", "            self.zu[:] = np.greater_equal(self.u.v, upper_v)"), rule="C09.antiwindup")
+V("C09", "aw_peg_wrong_limit", "violation", (DISC, "                self.state.v[:] += lower_v * self.zl", "                self.state.v[:] += upper_v * self.zl"), rule="C09.antiwindup")
+V("C09", "aw_xset_accumulates", "violation", (DISC, "        # must flush the `x_set` list at the beginning\n        self.x_set = list()\n", "        # must flush the `x_set` list at the beginning\n"), rule="C09.antiwindup")
+V("C09", "aw_xset_order", "violation", (DISC, "            self.x_set.append((self.state.a[idx], self.state.v[idx], 0))", "            self.x_set.append((self.state.a[idx], 0, self.state.v[idx]))"), rule="C09")
+V("C09", "lessthan_inverted", "violation", (DISC, "            self.z1[:] = np.less(self.u.v, self.bound.v)", "            self.z1[:] = np.greater(self.u.v, self.bound.v)"), rule="C09.limiter")
+V("C09", "dbrt_self_compare", "violation", (DISC, "self.zur * np.equal(zi0, self.zi)", "self.zur * np.equal(self.zi, self.zi)"), rule="C09")
+V("C09", "tds_order_eq_before_f", "violation", (TDS, "        system.f_update(models=models)\n        system.l_update_eq(models=models, init=init, niter=self.niter)\n", "        system.l_update_eq(models=models, init=init, niter=self.niter)\n        system.f_update(models=models)\n"), rule="C09.order")
+V("C09", "consumer_swaps_tuple", "violation", (SYSTEM, "                for key, val, _ in item.x_set:\n                    np.put(self.dae.x, key, val)", "                for key, _, val in item.x_set:\n                    np.put(self.dae.x, key, val)"), rule="C09.xset")
+V("C09", "rate_limiter_no_clip", "violation", (DISC, "            self.u.e[np.where(self.zur)] = self.rate_upper.v[np.where(self.zur)]", "            pass"), rule="C09.antiwindup")
+V("C09", "benign_limiter_temp", "silent", (DISC, "        self.zi[:] = np.logical_not(np.logical_or(self.zu, self.zl))\n\n    def do_adjust_lower", "        outside = np.logical_or(self.zu, self.zl)\n        self.zi[:] = np.logical_not(outside)\n\n    def do_adjust_lower"))
+
+
+# ---------------- C05
+GENBASE = "andes/models/synchronous/genbase.py"
+V("C05", "syngen_keeps_static_on", "violation", (GENBASE, "        self.system.groups['StaticGen'].set(src='u', idx=mask_idx, attr='v', value=0)", "        self.system.groups['StaticGen'].set(src='u', idx=mask_idx, attr='v', value=1)"), rule="C05.static-dynamic")
+V("C05", "zip_keeps_pq_on", "violation", ("andes/models/dynload/zip.py", "        self.system.groups['StaticLoad'].set(src='u', idx=self.pq.v, attr='v', value=0)", "        pass"), rule="C05.static-dynamic")
+V("C05", "init_deps_ignored", "violation", (SYMP, "        for name, expr in self.v_str_syms.items():\n            _store_deps(name, expr, self.vars_dict, deps)", "        for name, expr in self.v_str_syms.items():\n            _store_deps(name, expr, {}, deps)"), rule="C05.init-order")
+V("C05", "init_always_accumulates", "violation", (MODEL, "                            instance.v[:] = self.calls.ia[name](*self.ia_args[name])\n\n                        else:", "                            instance.v[:] += self.calls.ia[name](*self.ia_args[name])\n\n                        else:"), rule="C05.handover")
+V("C05", "pf_solution_after_extension", "violation", (TDS, "        system.dae.y[:len(system.PFlow.y_sol)] = system.PFlow.y_sol\n        system.dae.t -= system.dae.t   # set `dae.t` to zero\n", "        system.dae.t -= system.dae.t   # set `dae.t` to zero\n"), (TDS, "        system.set_dae_names(models=system.exist.tds)\n", "        system.set_dae_names(models=system.exist.tds)\n        system.dae.y[:len(system.PFlow.y_sol)] = system.PFlow.y_sol\n"), rule="C05.handover")
+V("C05", "test_init_zeroes_residual", "violation", (TDS, "        system.dae.f[system.no_check_init] = 0.0\n", "        system.dae.f[system.no_check_init] = 0.0\n        system.dae.g[:] = 0.0\n"), rule="C05.verdict")
+V("C05", "syngen_tm_init_off", "violation", (GENBASE, "                        v_str='tm0',\n                        e_str='tm0 - tm'", "                        v_str='tm0 * 1.01',\n                        e_str='tm0 - tm'"), rule="C05.equilibrium", tier="thorough")
+V("C05", "tgov1_pd_init", "violation", ("andes/models/governor/tgov1.py", "                        v_str='ue * tm0',\n                        e_str='ue*(- wd + pref + paux) * gain - pd')", "                        v_str='ue * tm0 * 0.9',\n                        e_str='ue*(- wd + pref + paux) * gain - pd')"), rule="C05.equilibrium", tier="thorough")
+V("C05", "benign_v_numeric_refactor", "silent", (GENBASE, "        mask_idx = [self.gen.v[i] for i in range(self.n) if self.u.v[i] == 1]\n        self.system.groups['StaticGen'].set(src='u', idx=mask_idx, attr='v', value=0)", "        online = [self.gen.v[i] for i in range(self.n) if self.u.v[i] == 1]\n        self.system.groups['StaticGen'].set(src='u', idx=online, attr='v', value=0)"))
